@@ -5,6 +5,7 @@ import (
 	"encoding/json"
 	"fmt"
 	"sort"
+	"strconv"
 	"strings"
 
 	"github.com/jf-tech/omniparser"
@@ -63,6 +64,21 @@ func c02FirstOf(_ *transformctx.Ctx, vs ...interface{}) (string, error) {
 	return c02FirstOfImpl(vs)
 }
 
+// c02Num is a test function whose result is a NUMBER: "i:<int64>", "f:<float64>", "b:<bool>" or a string as it is.
+func c02Num(_ *transformctx.Ctx, spec string) (interface{}, error) { return c02NumImpl(spec) }
+
+func c02NumImpl(spec string) (interface{}, error) {
+	switch {
+	case strings.HasPrefix(spec, "i:"):
+		return strconv.ParseInt(spec[2:], 10, 64)
+	case strings.HasPrefix(spec, "f:"):
+		return strconv.ParseFloat(spec[2:], 64)
+	case strings.HasPrefix(spec, "b:"):
+		return strconv.ParseBool(spec[2:])
+	}
+	return spec, nil
+}
+
 func c02FirstOfImpl(vs []interface{}) (string, error) {
 	for _, v := range vs {
 		switch x := v.(type) {
@@ -84,7 +100,7 @@ func c02FirstOfImpl(vs []interface{}) (string, error) {
 }
 
 var c02ImplFuncs = customfuncs.Merge(customfuncs.CommonCustomFuncs, v21.OmniV21CustomFuncs,
-	customfuncs.CustomFuncs{"testfn": c02TestFn, "firstof": c02FirstOf})
+	customfuncs.CustomFuncs{"testfn": c02TestFn, "firstof": c02FirstOf, "num": c02Num})
 
 func strArgs(args []interface{}) ([]string, error) {
 	out := make([]string, len(args))
@@ -124,6 +140,16 @@ var c02RefFuncs = map[string]ref.RefFunc{
 	}},
 	"firstof": {Params: []interface{}{nil}, Call: func(_ *idr.Node, a []interface{}) (interface{}, error) {
 		return c02FirstOfImpl(a)
+	}},
+	"num": {Params: []interface{}{""}, Call: func(_ *idr.Node, a []interface{}) (interface{}, error) {
+		if len(a) != 1 {
+			return nil, fmt.Errorf("num wants one argument")
+		}
+		s, ok := a[0].(string)
+		if !ok {
+			return nil, fmt.Errorf("num: argument is %T", a[0])
+		}
+		return c02NumImpl(s)
 	}},
 	"testfn": {Params: []interface{}{"", int64(0), float64(0), false, ""}, Call: func(_ *idr.Node, a []interface{}) (interface{}, error) {
 		if len(a) < 4 {
@@ -772,6 +798,22 @@ func c02Enumerate(quick bool, visit func(label string, decls gd) bool) {
 		}
 		if !visit("G:axes-from-a-childless-cursor", fo(gd{"object": gd{"o": gd{"xpath": anchor, "object": gd{"all": gd{"array": elems}}}}})) {
 			return
+		}
+	}
+	// Level G (4): function results that are numbers, cast with every type - incl. floats with a fraction,
+	// beyond the int64 range, at its edges, and non-finite
+	for _, spec := range []string{"i:1", "f:2.7", "f:-2.7", "f:1e19", "f:-1e19", "i:9223372036854775807", "f:9223372036854775807", "f:9223372036854774784", "f:-9223372036854775808", "f:-9223372036854777856",
+		"f:3e19", "f:1e308", "f:0", "f:-0", "b:true", "12", " 7 ", "", "f:NaN", "f:+Inf"} {
+		call := gd{"custom_func": gd{"name": "num", "args": []interface{}{gd{"const": spec, "no_trim": true}}}}
+		for _, t := range []string{"int", "float", "string", "boolean", ""} {
+			d := cp(call)
+			if t != "" {
+				d["type"] = t
+			}
+			if !visit("G:number-result-cast", fo(gd{"object": gd{"k": d}})) ||
+				!visit("G:number-result-cast", fo(gd{"object": gd{"k": cp(d, "keep_empty_or_null", true), "n": gd{"custom_func": gd{"name": "concat", "args": []interface{}{cp(d, "type", "string")}}}}})) {
+				return
+			}
 		}
 	}
 	// Level D: degenerate declarations - empty object, empty array, bare field - alone, as siblings of
